@@ -486,7 +486,7 @@ int32_t jls_core_rd_chunk_end(struct jls_core_s * self) {
         if (jls_bk_fread(backend, (uint8_t *) data, (unsigned) length)) {
             return JLS_ERROR_EMPTY;
         }
-        for (int64_t i = (length - sizeof(struct jls_chunk_header_s)) / sizeof(uint64_t); i > 0; --i) {
+        for (int64_t i = (length - sizeof(struct jls_chunk_header_s)) / sizeof(uint64_t); i >= 0; --i) {
             h = (struct jls_chunk_header_s *) &data[i];
             uint32_t crc32 = jls_crc32c_hdr(h);
             if (crc32 == h->crc32) {
